@@ -49,11 +49,16 @@ type Draw func(n int) int
 
 var nameParts = []string{"a", "b", "c", "d", "bin", "etc", "lib", "x.txt", "data", "zz"}
 
+// oddNames sort before ".", between "." and "..", or after every letter; they contain spaces and non-ASCII
+var oddNames = []string{"#n#", "(m)", "+p.svelte", ".#lock", "-dash", " sp", "$R", "~t", "Zed", "\u00e9t\u00e9", ".hid", "a b", "..."}
+
 // GenOpts bounds the generated tar.
 type GenOpts struct {
 	MaxEntries int
 	ChunkSize  int
 	Whiteouts  bool // allow .wh. entries and opaque markers (C07)
+	OddNames   bool // names with bytes that sort around "." and "..", spaces, non-ASCII
+	BigFiles   bool // also files of many chunks
 }
 
 func fileData(seed uint64, n int) []byte {
@@ -89,12 +94,19 @@ func GenTar(d Draw, seed uint64, o GenOpts) *TarSpec {
 	var regs []string
 	cs := o.ChunkSize
 	sizes := []int{0, 1, cs - 1, cs, cs + 1, 2 * cs, 2*cs + 1, 3*cs - 1, cs / 2, 5 * cs}
+	if o.BigFiles {
+		sizes = append(sizes, 7*cs+3, 12*cs, 23*cs-1)
+	}
 	for i := 0; i < n; i++ {
 		parent := ""
 		if len(dirs) > 0 && d(3) != 0 {
 			parent = dirs[d(len(dirs))]
 		}
-		base := nameParts[d(len(nameParts))]
+		parts := nameParts
+		if o.OddNames {
+			parts = append(append([]string{}, nameParts...), oddNames...)
+		}
+		base := parts[d(len(parts))]
 		if d(4) == 0 {
 			base += fmt.Sprint(d(3))
 		}
